@@ -64,7 +64,11 @@ RULE = ("value trees of depth <= 4 with every constructor of the model (14 kinds
         "views over dict and FrozenDict) nested in each other and used as dict keys / set elements where hashable, "
         "x 4 option combinations x paths {convert_output_data, evaluate('$') raw, expression results, "
         "convert_input_data, evaluate('$'), YaqlInterface, hash}; non-trivial = the tree contains a container "
-        "nested in a container (depth >= 2) or a non-plain constructor; distinct = distinct (path, options, tree)")
+        "nested in a container (depth >= 2) or a non-plain constructor; distinct = distinct (path, options, tree); "
+        "O additionally: statement-reuse histories (one Statement object along 1-6 contexts drawn from fresh/child/grandchild "
+        "standard contexts, bare Context, hand-registered sandbox, custom finalizer; changing data) compared step by step "
+        "with a freshly parsed statement, and engine lifecycles (24 engines per sequence made by create/copy/copy-of-copy "
+        "with alternating output options, used and dropped, one kept alive)")
 TRUSTED = ["Model/Convert.v is a hand transcription of convert_input_data / convert_output_data (yaql/language/utils.py) "
            "and of CPython's hashability of the value kinds involved; tied by this correspondence",
            "the value printer of harness/props/c10.py (exact Python type -> model constructor; set and dict iteration "
